@@ -36,28 +36,7 @@ Definition as_column (v:val) : option column :=
 Definition vcells (l:list (list Z)) : val := vlist2 l.
 Definition vopt_frame (o:option frame) : val := match o with Some d => vframe d | None => vna end.
 
-(* reference for Session.aggregate_*: one entry per run of equal adjacent index rows *)
-Definition index_rows (c:column) : list (list (list Z)) :=
-  match c with
-  | ColNum l => scalar_rows l
-  | ColFixed l => map (fun x => [x]) l
-  | ColIndexed i v => map (fun x => [x]) (indexed_rows i v)
-  end.
-Definition runs_spans (rows:list (list (list Z))) : list Z :=
-  spans_ref (fun a b => negb (row_eqb a b)) rows.
-Definition agg_Z (a:agg) (l:list Z) : Z := uncell (agg_cells a (scalar_cells l)).
-Definition session_aggregate_ref (a:option agg) (index:column) (target:list Z) : option (list Z) :=
-  let rows := index_rows index in
-  let sorted := rows_sortedb bytes_ltb rows in
-  match a with
-  | None =>
-    Some (if sorted then agg_ref (@len (list (list Z))) rows rows else count_ref (runs_spans rows))
-  | Some a =>
-    if negb (len target =? len rows) then None
-    else Some (if sorted then agg_ref (agg_Z a) rows target
-               else reduce_spans (fun (_:Z) l => agg_Z a l) (runs_spans rows) target)
-  end.
-
+(* the references session_aggregate_ref / session_distinct_ref are in Spec/GroupSpec.v *)
 Definition vres2' (r:list Z * option (list Z)) : val := VL [vlist (fst r); vopt vlist (snd r)].
 
 Definition entry_C07 (v:val) : val :=
@@ -99,13 +78,9 @@ Definition entry_C07 (v:val) : val :=
     match as_list3 fields with
     | Some fields =>
       both (of_res (fun l => VL (map vcells l)) (session_distinct fields))
-           (match fields with
-            | f0 :: _ =>
-              if forallb (fun c => len c =? len f0) fields
-              then let g := groups (rows_of (len f0) fields) in
-                   VL (map (fun j => vcells (map (fun r => nthd [] r j) g)) (iota 0 (length fields)))
-              else vna
-            | [] => vna
+           (match session_distinct_ref fields with
+            | Some r => VL (map vcells r)
+            | None => vna
             end)
     | None => vbad
     end
